@@ -16,6 +16,8 @@ structure BulkPolicy where
   cut : Nat := 0
   /-- stop after a repetition consisting of endOfMibView only -/
   stopAfterEomRow : Bool := true
+  /-- RFC 3416 4.2.3: the cut may reach into the first repetition (at least one binding is kept) -/
+  deep : Bool := false
   deriving Repr, Inhabited
 
 namespace Agent
@@ -66,7 +68,9 @@ def getbulkResp (a : AgentFn) (pol : BulkPolicy) (nonRep maxRep : Nat) (oids : L
     | none => maxRep
   let rows := if reps.isEmpty then [] else bulkRows a pol.stopAfterEomRow maxRows 0 reps
   let flat := rows.flatten
-  let flat := if pol.cut > 0 && rows.length > 1 then
+  let flat := if pol.cut > 0 && pol.deep && !flat.isEmpty then
+      flat.take (max 1 (flat.length - pol.cut))
+    else if pol.cut > 0 && rows.length > 1 then
       flat.take (max (rows.head!.length) (flat.length - pol.cut))
     else flat
   scalars ++ flat
